@@ -287,10 +287,16 @@ func runC10(c *Ctx) error {
 		}
 		// somebody opens the dashboard on every router: the routing table is printed; the mesh is as
 		// converged afterwards as it was before
+		dumpChanged := false
 		for _, nd := range ms.nodes {
+			before := coqEntries(nd.ro.Table().VerifEntries())
 			_ = nd.ro.Table().Format()
+			if coqEntries(nd.ro.Table().VerifEntries()) != before {
+				c.Violate("printing a router's routing table changed the table the router routes by (content or order of the routes)", "table-dump-changes-routes", map[string]any{"mesh": label, "router": nd.name})
+				dumpChanged = true
+			}
 		}
-		if _, bad := ms.checkReach(label + "/after-table-dump"); bad > 0 {
+		if _, bad := ms.checkReach(label + "/after-table-dump"); bad > 0 || dumpChanged {
 			continue
 		}
 		pairs := c.Pick(6, 30)
